@@ -301,9 +301,216 @@ def r01_cde(prog: Program, chk: Check) -> None:
     c02.r02l(prog, ad)  # type: ignore[arg-type]
 
 
+# ------------------------------------------------------------------- R01.i
+def r01_i(prog: Program, chk: Check) -> None:
+    import itertools
+
+    from ..minterp import AssertionFailed, Interp, ModelError, Obj, PyRaise, Unsupported
+
+    chk.rule(
+        "R01.i",
+        "sequence unpacking as a finite model: _unpack_sequence_value is interpreted from its AST on every member shape of up to 4 members (each a single element of a distinct "
+        "type or an unpacked run `*tuple[X, ...]`, at most two runs) x every target list `a, b, ... [, *rest, y, z]` (0-3 targets before, optional star, 0-2 after); every concrete "
+        "tuple the shape stands for (each run expanded to 0-2 elements) is unpacked by Python's own rules: whenever that succeeds, each target's inferred value contains the type "
+        "of the element it receives (the star target's element type contains every element it collects), and an error is returned only if no expansion unpacks",
+        floor=3,
+    )
+    fn = prog.func("value", "_unpack_sequence_value")
+
+    def val(labels):
+        return Obj("Value", labels=frozenset(labels))
+
+    def unite(args, kwargs=None):
+        out = frozenset()
+        for a in args:
+            out |= a._attrs["labels"]
+        return val(out)
+
+    unite.wants_kwargs = True  # type: ignore[attr-defined]
+    funcs = {
+        "unite_values": unite,
+        "GenericValue": lambda a: Obj("ListOf", labels=a[1][0]._attrs["labels"]),
+        "SequenceValue": lambda a: Obj("ListOf", labels=frozenset().union(*[v._attrs["labels"] for _, v in a[1]]) if a[1] else frozenset()),
+        "CanAssignError": lambda a: Obj("CanAssignError", message=""),
+    }
+
+    def hook(v, cls):
+        if cls == "CanAssignError":
+            return isinstance(v, Obj) and v._kind == "CanAssignError"
+        return None
+
+    names = "ABCD"
+    shapes = []
+    for n in range(0, 5):
+        for manys in itertools.product((False, True), repeat=n):
+            if sum(manys) <= 2:
+                shapes.append([(m, names[i]) for i, m in enumerate(manys)])
+    missed, false_errors, crashes = [], [], []
+    ncases = 0
+    for shape in shapes:
+        members = tuple((m, val({lab})) for m, lab in shape)
+        value = Obj("SequenceValue", members=members, typ=tuple)
+        expansions = []
+        runs = [i for i, (m, _) in enumerate(shape) if m]
+        for counts in itertools.product((0, 1, 2), repeat=len(runs)):
+            conc = []
+            for i, (m, lab) in enumerate(shape):
+                conc += [lab] * (counts[runs.index(i)] if m else 1)
+            expansions.append(conc)
+        for before in range(0, 4):
+            for after in (None, 0, 1, 2):
+                ncases += 1
+                it = Interp({}, {}, (), funcs, hook, {}, {}, {})
+                d = {"tuple_type": "tuple[" + ", ".join(("*tuple[%s, ...]" % lab) if m else lab for m, lab in shape) + "]", "targets": ", ".join([f"t{i}" for i in range(before)] + (["*rest"] + [f"u{i}" for i in range(after)] if after is not None else []))}
+                try:
+                    res = it.call_def(fn, [value, before, after], fn)
+                except Unsupported as u:
+                    raise AnchorError(f"_unpack_sequence_value cannot be modelled: {u}")
+                except (AssertionFailed, PyRaise, ModelError) as e:
+                    crashes.append({**d, "error": str(e)})
+                    continue
+                ok_expansions = [c for c in expansions if (len(c) == before if after is None else len(c) >= before + after)]
+                if isinstance(res, Obj) and res._kind == "CanAssignError":
+                    if ok_expansions:
+                        false_errors.append({**d, "unpacks_at_run_time": ok_expansions[0]})
+                    continue
+                want = before + (0 if after is None else 1 + after)
+                if not isinstance(res, list) or len(res) != want:
+                    missed.append({**d, "problem": f"{len(res) if isinstance(res, list) else res!r} values for {want} targets"})
+                    continue
+                for conc in ok_expansions:
+                    if after is None:
+                        got = [(res[i], [conc[i]]) for i in range(before)]
+                    else:
+                        mid = conc[before:len(conc) - after]
+                        got = [(res[i], [conc[i]]) for i in range(before)] + [(res[before], mid)] + [(res[before + 1 + j], [conc[len(conc) - after + j]]) for j in range(after)]
+                    bad = next(((k, labs) for k, (v, labs) in enumerate(got) if not set(labs) <= set(v._attrs["labels"])), None)
+                    if bad is not None:
+                        k, labs = bad
+                        missed.append({**d, "run_time_tuple": conc, "target_index": k, "receives": labs, "inferred": sorted(got[k][0]._attrs["labels"])})
+                        break
+    chk.model_evaluations += ncases
+    chk.analysed["unpack_model"] = {"cases": ncases, "shapes": len(shapes)}
+    site = prog.site("value", fn)
+    for lst in (missed, false_errors, crashes):
+        lst.sort(key=lambda x: (len(x["tuple_type"]) + len(x["targets"]), repr(x)))
+    chk.ob("R01.i", "value::unpack-model::each target's inferred value contains what it receives", not missed, site, f"{ncases} unpackings, {len(missed)} with a target that misses a run-time element" + (f"; smallest: {missed[0]}" if missed else ""), witness=missed[:4])
+    chk.ob("R01.i", "value::unpack-model::an error only if no expansion unpacks", not false_errors, site, f"{len(false_errors)} errors although some tuple of that type unpacks" + (f"; smallest: {false_errors[0]}" if false_errors else ""), witness=false_errors[:4])
+    chk.ob("R01.i", "value::unpack-model::no-crash", not crashes, site, f"{len(crashes)} crashes" + (f"; first: {crashes[0]}" if crashes else ""), witness=crashes[:3])
+
+
+# ------------------------------------------------------------------- R01.j
+def r01_j(prog: Program, chk: Check) -> None:
+    from ..minterp import AssertionFailed, Interp, ModelError, Obj, PyRaise, Sym, Unsupported
+
+    chk.rule(
+        "R01.j",
+        "sequence patterns as a finite model: PatmaVisitor.visit_MatchSequence (with index_of) and LenPredicate.__call__ are interpreted from their AST for every sequence pattern "
+        "of up to 3 sub-patterns with an optional star at every position; CPython executes the same `match` statement on tuples of length 0-4: the length predicate keeps a subject of "
+        "known length in the case's branch exactly when CPython takes the case (and in the fall-through exactly when it does not), and the values are unpacked with the numbers of "
+        "targets before and after the star",
+        floor=3,
+    )
+    pv = prog.cls("PatmaVisitor")
+    visit_fn = pv.methods.get("visit_MatchSequence")
+    lp = prog.cls("LenPredicate")
+    if visit_fn is None or "__call__" not in lp.methods:
+        raise AnchorError("PatmaVisitor.visit_MatchSequence / LenPredicate.__call__ not found")
+    call_fn = lp.methods["__call__"]
+    module_defs = {"index_of": prog.func("patma", "index_of")}
+    wrong_branch, wrong_unpack, crashes = [], [], []
+    n = 0
+    patterns = []
+    for k in range(0, 4):
+        names = [f"p{i}" for i in range(k)]
+        patterns.append((names, None))
+        for star in range(0, k + 1):
+            patterns.append((names[:star] + ["*rest"] + names[star:], star))
+    for pats, star in patterns:
+        src = "match subject:\n    case [" + ", ".join(pats) + "]:\n        taken = True\n    case _:\n        taken = False\n"
+        node = ast.parse(src).body[0].cases[0].pattern  # type: ignore[attr-defined]
+        code = compile(src, "<match>", "exec")
+        captured: Dict[str, object] = {}
+
+        def len_predicate(args, kwargs=None):
+            o = Obj("LenPredicate", expected_length=args[0], has_star=args[1], ctx=args[2] if len(args) > 2 else None)
+            captured["len_predicate"] = o
+            return o
+
+        len_predicate.wants_kwargs = True  # type: ignore[attr-defined]
+
+        def unpack_values(args, kwargs=None):
+            captured["unpack"] = (args[2], args[3])
+            return [Obj("Value", length=None) for _ in pats]
+
+        unpack_values.wants_kwargs = True  # type: ignore[attr-defined]
+        any_pred = lambda args, kwargs=None: Obj("IsAssignablePredicate")  # noqa: E731
+        any_pred.wants_kwargs = True  # type: ignore[attr-defined]
+        funcs = {
+            "LenPredicate": len_predicate, "unpack_values": unpack_values, "IsAssignablePredicate": any_pred,
+            "constrain_value": lambda a: a[0], "Composite": lambda a: Obj("Composite", value=a[0]), "AnyValue": lambda a: Obj("Value", length=None),
+            "len_of_value": lambda a: Obj("KnownValue", val=a[0]._attrs["length"]) if a[0]._attrs.get("length") is not None else Obj("Value", length=None),
+            "unannotate": lambda a: a[0],
+        }
+        visitor = Obj("NameCheckVisitor", match_subject=Obj("Composite", value=Obj("Value", length=None)))
+        self_obj = Obj(
+            "PatmaVisitor", visitor=visitor, check_impossible_pattern=lambda node_, typ: None, make_constraint=lambda ctype, pred: Obj("Constraint", predicate=pred),
+            visit=lambda pat: Obj("Constraint", predicate=None),
+        )
+
+        def hook(v, cls):
+            if cls in ("MatchStar",):
+                return isinstance(v, ast.MatchStar)
+            if cls in ("KnownValue", "CanAssignError", "TypedValue"):
+                return isinstance(v, Obj) and v._kind == cls
+            return None
+
+        globals_ = {"ast": ast, "itertools": __import__("itertools"), "AndConstraint": Obj("class", make=lambda cs: Obj("AndConstraint", constraints=list(cs))), "qcore": Obj("qcore", override=lambda o, a, v: Obj("ContextManager", __enter__=lambda: None, __exit__=lambda exc=None: None)), "MatchableSequence": Sym("MatchableSequence")}
+        it = Interp({}, {}, (), funcs, hook, {}, module_defs, globals_)
+        d = {"pattern": "[" + ", ".join(pats) + "]"}
+        try:
+            it.call_def(visit_fn, [self_obj, node], visit_fn)
+        except Unsupported as u:
+            raise AnchorError(f"visit_MatchSequence cannot be modelled: {u}")
+        except (AssertionFailed, PyRaise, ModelError) as e:
+            crashes.append({**d, "error": str(e)})
+            continue
+        if "len_predicate" not in captured or "unpack" not in captured:
+            raise AnchorError("visit_MatchSequence builds no LenPredicate / does not unpack in the model")
+        want_unpack = (len(pats), None) if star is None else (star, len(pats) - 1 - star)
+        n += 1
+        if tuple(captured["unpack"]) != want_unpack:  # type: ignore[arg-type]
+            wrong_unpack.append({**d, "unpacked_with": list(captured["unpack"]), "targets_before_and_after_the_star": list(want_unpack)})  # type: ignore[arg-type]
+        pred = captured["len_predicate"]
+        for length in range(0, 5):
+            ns: Dict[str, object] = {"subject": tuple(range(length))}
+            exec(code, ns)  # CPython's own pattern matching is the reference
+            taken = bool(ns["taken"])
+            for positive in (True, False):
+                n += 1
+                try:
+                    r = it.call_def(call_fn, [pred, Obj("Value", length=length), positive], call_fn)
+                except Unsupported as u:
+                    raise AnchorError(f"LenPredicate.__call__ cannot be modelled: {u}")
+                except (AssertionFailed, PyRaise, ModelError) as e:
+                    crashes.append({**d, "error": str(e)})
+                    continue
+                kept = r is not None
+                if kept != (taken == positive):
+                    wrong_branch.append({**d, "subject_length": length, "branch": "case" if positive else "fall-through", "cpython_takes_the_case": taken, "subject_kept_in_branch": kept})
+    chk.model_evaluations += n
+    chk.analysed["sequence_pattern_model"] = {"checks": n, "patterns": len(patterns)}
+    site = prog.site("patma", visit_fn)
+    chk.ob("R01.j", "patma::sequence-pattern-model::a subject of known length is in the branch CPython takes", not wrong_branch, site, f"{n} checks, {len(wrong_branch)} subjects in the wrong branch" + (f"; first: {wrong_branch[0]}" if wrong_branch else ""), witness=wrong_branch[:4])
+    chk.ob("R01.j", "patma::sequence-pattern-model::unpacked with the targets before and after the star", not wrong_unpack, site, f"{len(wrong_unpack)} patterns unpacked with other numbers" + (f"; first: {wrong_unpack[0]}" if wrong_unpack else ""), witness=wrong_unpack[:4])
+    chk.ob("R01.j", "patma::sequence-pattern-model::no-crash", not crashes, site, f"{len(crashes)} crashes" + (f"; first: {crashes[0]}" if crashes else ""), witness=crashes[:3])
+
+
 def run(prog: Program, chk: Check) -> None:
     guard(chk, r01_a, prog, chk)
     guard(chk, r01_b, prog, chk)
     guard(chk, r01_cde, prog, chk)
     guard(chk, r01_f, prog, chk)
     guard(chk, index_range_rule, prog, chk, "R01.f")
+    guard(chk, r01_i, prog, chk)
+    guard(chk, r01_j, prog, chk)
